@@ -43,13 +43,20 @@ pub(crate) fn optimize(
         start_plan.add_switches(&mut new_plan, data.len(), true, enabled_modes);
     }
 
+    #[cfg(datamatrix_verif)]
+    verif_hooks::reset();
+
     for iteration in 0usize.. {
+        #[cfg(datamatrix_verif)]
+        verif_hooks::with(|st| st.iterations += 1);
         let mut at_end = iteration == 0 && plans.is_empty() && data.is_empty();
         let use_as_start = iteration == 0;
 
         let rest_chars = data.len() - iteration;
         for mut plan in plans.drain(0..) {
             let plan_copy_before_step = plan.clone();
+            #[cfg(datamatrix_verif)]
+            verif_hooks::with(|st| st.steps += 1);
             let result = if let Some(result) = plan.step() {
                 result
             } else {
@@ -84,6 +91,8 @@ pub(crate) fn optimize(
         }
 
         remove_hopeless_cases(&mut new_plan);
+        #[cfg(datamatrix_verif)]
+        verif_hooks::with(|st| st.max_live = st.max_live.max(new_plan.len()));
 
         if new_plan.is_empty() {
             return None;
@@ -99,6 +108,8 @@ pub(crate) fn optimize(
                     (p.cost().ceil(), max_enc, p.switches.len())
                 })
                 .unwrap();
+            #[cfg(datamatrix_verif)]
+            verif_hooks::with(|st| st.last_cost_raw = Some(plan.cost().verif_raw()));
             plan.switches.push((0, plan.current()));
 
             // Remove a "switch" to ASCII if we are at the very beginning
@@ -113,9 +124,64 @@ pub(crate) fn optimize(
     unreachable!()
 }
 
+/// Counters and traces for the external verification harness (`--cfg datamatrix_verif`).
+#[cfg(datamatrix_verif)]
+pub(crate) mod verif_hooks {
+    use super::GenericPlan;
+    use alloc::vec::Vec;
+    use std::cell::RefCell;
+
+    #[derive(Default, Clone, Debug)]
+    pub struct Stats {
+        /// calls of `Plan::step` made by the last `optimize()` call
+        pub steps: usize,
+        /// maximum number of plans alive after `remove_hopeless_cases`
+        pub max_live: usize,
+        /// iterations of the main loop
+        pub iterations: usize,
+        /// cost (in twelfths of a codeword) of the plan selected at the end
+        pub last_cost_raw: Option<u32>,
+        /// for every `sort_unstable_by_key` call: position before sorting of each sorted element
+        pub sort_trace: Vec<Vec<usize>>,
+    }
+
+    std::thread_local! {
+        static STATS: RefCell<Stats> = RefCell::new(Stats::default());
+    }
+
+    pub fn reset() {
+        STATS.with(|s| *s.borrow_mut() = Stats::default());
+    }
+
+    pub fn with<F: FnOnce(&mut Stats)>(f: F) {
+        STATS.with(|s| f(&mut s.borrow_mut()));
+    }
+
+    pub fn get() -> Stats {
+        STATS.with(|s| s.borrow().clone())
+    }
+
+    pub fn record_sort(before: &[GenericPlan], after: &[GenericPlan]) {
+        let mut used = alloc::vec![false; before.len()];
+        let mut perm = Vec::with_capacity(after.len());
+        for a in after {
+            let j = (0..before.len())
+                .find(|j| !used[*j] && before[*j] == *a)
+                .expect("sorted element not in input");
+            used[j] = true;
+            perm.push(j);
+        }
+        with(|st| st.sort_trace.push(perm));
+    }
+}
+
 // Only keep one minimizer for every start mode.
 fn remove_hopeless_cases(list: &mut Vec<GenericPlan>) {
+    #[cfg(datamatrix_verif)]
+    let before_sort = list.clone();
     list.sort_unstable_by_key(Plan::cost);
+    #[cfg(datamatrix_verif)]
+    verif_hooks::record_sort(&before_sort, list);
 
     // only keep min among all plans with tuple (start mode, current mode)
     let mut seen = [false; 6 * 6];
